@@ -176,6 +176,7 @@ p_ini_file_parse (PIniFile	*file,
 {
 	PIniSection	*section;
 	PIniParameter	*param;
+	PList		*tmp_list;
 	FILE		*in_file;
 	pchar		*dst_line;
 	pchar		*tmp_str;
@@ -248,8 +249,15 @@ p_ini_file_parse (PIniFile	*file,
 				if (section != NULL) {
 					if (section->keys == NULL)
 						pp_ini_file_section_free (section);
-					else
-						file->sections = p_list_prepend (file->sections, section);
+					else {
+						tmp_list = p_list_prepend (file->sections, section);
+
+						/* The list is returned as is if a node wasn't added */
+						if (P_UNLIKELY (tmp_list == file->sections))
+							pp_ini_file_section_free (section);
+						else
+							file->sections = tmp_list;
+					}
 				}
 
 				section = pp_ini_file_section_new (key);
@@ -277,8 +285,14 @@ p_ini_file_parse (PIniFile	*file,
 					if (strcmp (value, "\"\"") == 0 || (strcmp (value, "''") == 0))
 						value[0] = '\0';
 
-					if (section != NULL && (param = pp_ini_file_parameter_new (key, value)) != NULL)
-						section->keys = p_list_prepend (section->keys, param);
+					if (section != NULL && (param = pp_ini_file_parameter_new (key, value)) != NULL) {
+						tmp_list = p_list_prepend (section->keys, param);
+
+						if (P_UNLIKELY (tmp_list == section->keys))
+							pp_ini_file_parameter_free (param);
+						else
+							section->keys = tmp_list;
+					}
 				}
 			}
 		}
@@ -290,8 +304,13 @@ p_ini_file_parse (PIniFile	*file,
 	if (section != NULL) {
 		if (section->keys == NULL)
 			pp_ini_file_section_free (section);
-		else
+		else {
 			file->sections = p_list_append (file->sections, section);
+			tmp_list       = p_list_last (file->sections);
+
+			if (P_UNLIKELY (tmp_list == NULL || tmp_list->data != section))
+				pp_ini_file_section_free (section);
+		}
 	}
 
 	if (P_UNLIKELY (fclose (in_file) != 0))
@@ -316,14 +335,26 @@ p_ini_file_sections (const PIniFile *file)
 {
 	PList	*ret;
 	PList	*sec;
+	PList	*tmp_list;
+	pchar	*name;
 
 	if (P_UNLIKELY (file == NULL || file->is_parsed == FALSE))
 		return NULL;
 
 	ret = NULL;
 
-	for (sec = file->sections; sec != NULL; sec = sec->next)
-		ret = p_list_prepend (ret, p_strdup (((PIniSection *) sec->data)->name));
+	for (sec = file->sections; sec != NULL; sec = sec->next) {
+		if (P_UNLIKELY ((name = p_strdup (((PIniSection *) sec->data)->name)) == NULL))
+			continue;
+
+		tmp_list = p_list_prepend (ret, name);
+
+		/* The list is returned as is if a node wasn't added */
+		if (P_UNLIKELY (tmp_list == ret))
+			p_free (name);
+		else
+			ret = tmp_list;
+	}
 
 	return ret;
 }
@@ -334,6 +365,8 @@ p_ini_file_keys (const PIniFile	*file,
 {
 	PList	*ret;
 	PList	*item;
+	PList	*tmp_list;
+	pchar	*name;
 
 	if (P_UNLIKELY (file == NULL || file->is_parsed == FALSE || section == NULL))
 		return NULL;
@@ -347,8 +380,17 @@ p_ini_file_keys (const PIniFile	*file,
 	if (item == NULL)
 		return NULL;
 
-	for (item = ((PIniSection *) item->data)->keys; item != NULL; item = item->next)
-		ret = p_list_prepend (ret, p_strdup (((PIniParameter *) item->data)->name));
+	for (item = ((PIniSection *) item->data)->keys; item != NULL; item = item->next) {
+		if (P_UNLIKELY ((name = p_strdup (((PIniParameter *) item->data)->name)) == NULL))
+			continue;
+
+		tmp_list = p_list_prepend (ret, name);
+
+		if (P_UNLIKELY (tmp_list == ret))
+			p_free (name);
+		else
+			ret = tmp_list;
+	}
 
 	return ret;
 }
@@ -459,7 +501,9 @@ p_ini_file_parameter_list (const PIniFile	*file,
 			   const pchar		*key)
 {
 	PList		*ret = NULL;
+	PList		*tmp_list;
 	pchar		*val;
+	pchar		*item;
 	const pchar	*str;
 	pchar		buf[P_INI_FILE_MAX_LINE + 1];
 	psize		len;
@@ -486,8 +530,17 @@ p_ini_file_parameter_list (const PIniFile	*file,
 		else {
 			buf[buf_cnt] = '\0';
 
-			if (buf_cnt > 0)
-				ret = p_list_append (ret, p_strdup (buf));
+			if (buf_cnt > 0 && (item = p_strdup (buf)) != NULL) {
+				/* Items are collected in the reversed order to see
+				 * whether a node was added, the list is returned
+				 * as is otherwise */
+				tmp_list = p_list_prepend (ret, item);
+
+				if (P_UNLIKELY (tmp_list == ret))
+					p_free (item);
+				else
+					ret = tmp_list;
+			}
 
 			buf_cnt = 0;
 		}
@@ -497,10 +550,18 @@ p_ini_file_parameter_list (const PIniFile	*file,
 
 	if (buf_cnt > 0) {
 		buf[buf_cnt] = '\0';
-		ret = p_list_append (ret, p_strdup (buf));
+
+		if ((item = p_strdup (buf)) != NULL) {
+			tmp_list = p_list_prepend (ret, item);
+
+			if (P_UNLIKELY (tmp_list == ret))
+				p_free (item);
+			else
+				ret = tmp_list;
+		}
 	}
 
 	p_free (val);
 
-	return ret;
+	return p_list_reverse (ret);
 }
